@@ -12,15 +12,23 @@
 (* Switches (TRUE = intended):                                             *)
 (*   KeyIncludesConfig  the key hashes the batch rows and the run          *)
 (*                      configuration (threshold, column names)            *)
+(*   BatchKey           what the key sees of a batch: the identity (IdKey) *)
+(*                      is intended - every row with all its columns. A    *)
+(*                      key computed from a projection of the rows (only   *)
+(*                      the valid ones, only the reaction column, a        *)
+(*                      normalised spelling) maps different batches to one *)
+(*                      entry: TwinKey                                     *)
 (*   AtomicWrite        entry written to a temp file, then renamed         *)
 (*   TolerantLoad       an undecodable entry is treated as a miss          *)
 (***************************************************************************)
 EXTENDS Integers, Sequences, FiniteSets, TLC
 
-CONSTANTS Batches, Cfgs, MaxRuns, MaxBatchesPerRun, KeyIncludesConfig, AtomicWrite, TolerantLoad
+CONSTANTS Batches, Cfgs, MaxRuns, MaxBatchesPerRun, KeyIncludesConfig, AtomicWrite, TolerantLoad, BatchKey
 
+IdKey == [b \in Batches |-> b]
+TwinKey == [b \in Batches |-> "twins"]
 NoCfg == "any"
-KeyOf(b, c) == <<b, IF KeyIncludesConfig THEN c ELSE NoCfg>>
+KeyOf(b, c) == <<BatchKey[b], IF KeyIncludesConfig THEN c ELSE NoCfg>>
 KeySpace == {KeyOf(b, c) : b \in Batches, c \in Cfgs}
 
 \* file contents: "absent", "partial" (some strict prefix, possibly empty, of an
